@@ -19,18 +19,24 @@ def plan(tier, seed):
     rj.append({'template': 't1', 'kind': 'none', 'k': 1})
     famR = dict(name='text_render_unescaped', module=H, fn='render', jobs=rj, timeout=400 if quick else 1500, vacuity=1,
                 program_key='template', mutants=[{'name': 'text_mode_escapes', 'cfg': rj[0]}])
+    famF = dict(name='text_file_bytes', module=H, fn='file_bytes', jobs=[{'file': True}], timeout=600, vacuity=1,
+                mutants=[{'name': 'incremental_encoder_cached', 'cfg': {'file': True}}])
     return dict(
         level='model_checking',
         functions=['chameleon.tokenize:iter_text', 'chameleon.program:ElementProgram',
                    'chameleon.zpt.program:MacroProgram.visit_text', 'chameleon.zpt.template:PageTemplate.parse',
-                   'chameleon.compiler:emit_func_convert', 'chameleon.compiler:Compiler.visit_Interpolation'],
+                   'chameleon.compiler:emit_func_convert', 'chameleon.compiler:Compiler.visit_Interpolation',
+                   'chameleon.zpt.template:PageTextTemplateFile.render'],
         bounds=('text-mode front end on %d source shapes with up to %d symbolic code points (markup-looking skeletons '
                 'included): one token equal to the source, emitted text = source with $$ -> $; %d renders of 5 text '
                 'templates with ${v} at several places, v = %d symbolic code points (str / object with __str__ / None): '
                 'output = literal parts + str(v), nothing escaped. The ${...} delimiting itself is C06\'s kernel. Outside: '
                 'CR/CRLF (normalised as documented for non-XML input), entity decoding inside ${} expressions (known '
-                'finding), PageTextTemplateFile bytes result (str.encode is a C boundary).'
+                'finding). PageTextTemplateFile: every history of 3 renders on one instance with values from a 5-element pool '
+                '(ASCII, Latin-1, markup, empty, CJK) under 6 output encodings (stateless and stateful codecs): each result is '
+                'the encoded form of what the string template renders; the choice of history and encoding is the '
+                'solver\'s, encoding itself is concrete (codecs are a C boundary).'
                 % (len(shapes), 3 if quick else 4, len(rj), 2 if quick else 3)),
         assumptions=['front-end harness reuses the C03 stubs (no-op expression engine)'],
-        families=[famV, famR],
+        families=[famV, famR, famF],
     )
